@@ -128,3 +128,40 @@ Proof.
   - replace (1 + tol / (a - tol)) with (a / (a - tol)) by (field; lra).
     unfold Rdiv. apply Rmult_le_compat_l; [lra|]. apply Rinv_le_contravar; lra.
 Qed.
+
+(* WITHOUT H0 the cut point can leave its edge: a corner in front barely outside the band (offset a) and a corner inside
+   the band on the same side (offset b, classified "on") give the parameter a/(a-b) > 1, i.e. a new vertex beyond the
+   far corner, outside the input face.  Witness: tol = 1, a = 2, b = 1/2, parameter 4/3. *)
+Lemma cut_param_exceeds_one :
+  exists tol a b, 0 <= tol /\ tol < a /\ - tol <= b <= tol /\ 1 < a / (a - b).
+Proof. exists 1, 2, (1/2). repeat split; lra. Qed.
+
+(* the same on a whole face: corners with offsets 2 (front), 1/2 (on, tol = 1), -2 (behind); the output triangle has the
+   corner (4/3, 0, 0), which is not in the input face *)
+Lemma cut_vertex_outside_face :
+  exists tol eps n o t t' v, 0 <= tol /\ In t' (slice_face ROps tol eps n o true t) /\ In v (tri_corners t') /\ ~ in_tri t v.
+Proof.
+  exists 1, 1, (V3 0 0 1), (V3 0 0 0), (V3 0 0 2, V3 1 0 (1/2), V3 0 1 (-2)).
+  eexists. exists (V3 (4/3) 0 0). split; [lra|].
+  assert (S0 : vsign ROps 1 (plane_dot ROps (V3 0 0 1) (V3 0 0 0) (V3 0 0 2)) = (-1)%Z).
+  { unfold vsign, plane_dot; vunf.
+    repeat match goal with |- context [Rltb ?a ?b] => destruct (Rltb_spec a b); try (exfalso; lra) end; reflexivity. }
+  assert (S1 : vsign ROps 1 (plane_dot ROps (V3 0 0 1) (V3 0 0 0) (V3 1 0 (1/2))) = 0%Z).
+  { unfold vsign, plane_dot; vunf.
+    repeat match goal with |- context [Rltb ?a ?b] => destruct (Rltb_spec a b); try (exfalso; lra) end; reflexivity. }
+  assert (S2 : vsign ROps 1 (plane_dot ROps (V3 0 0 1) (V3 0 0 0) (V3 0 1 (-2))) = 1%Z).
+  { unfold vsign, plane_dot; vunf.
+    repeat match goal with |- context [Rltb ?a ?b] => destruct (Rltb_spec a b); try (exfalso; lra) end; reflexivity. }
+  split; [|split].
+  - unfold slice_face, tri_signs. cbn [tget fst snd]. rewrite S0, S1, S2.
+    unfold slice_face_signs. cbn [face_case inside is_quad is_tri onedge ssum sasum sget fst snd Z.add Z.abs Z.eqb Z.leb Z.ltb
+      Z.compare Z.opp Pos.compare Pos.compare_cont Pos.add Pos.succ andb orb negb col_of cut_tris]. left. reflexivity.
+  - change (col_of (-1) ((-1)%Z, 0%Z, 1%Z)) with 0%nat.
+    unfold tri_corners. cbn [tget fst snd In]. right. left.
+    unfold int_points. cbn [tget fst snd Nat.add Nat.modulo Nat.divmod Nat.sub].
+    unfold int_point. vunf.
+    match goal with |- context [Reqb ?a ?b] => destruct (Reqb_spec a b) as [E|E]; [exfalso; lra|] end.
+    apply V3_ext; field; lra.
+  - intros (w0 & w1 & w2 & H0' & H1 & H2 & Hs & E). unfold bary in E. cbn [tget fst snd] in E. vunf_in E.
+    injection E as Ex Ey Ez. lra.
+Qed.
